@@ -191,11 +191,14 @@ def run(ctx):
         if wild is None:
             bad.append('wildcards flag not tested on ' + fmt_val(v))
             continue
-        want = 'fnmatch.fnmatchcase(%s, %s)' % (test, base) if wild else '(%s).startswith(%s)' % (test, base)
+        # a directory named by the user covers the directory and everything below it, with or without wildcards (Wget: -I / -X):
+        # the glob is therefore matched as a prefix - the pattern ends in '*' - and never against the whole path only
+        want = "fnmatch.fnmatchcase(%s, %s + '*')" % (test, base) if wild else '(%s).startswith(%s)' % (test, base)
         want = norm_text(ast.parse(want, mode='eval').body)
         got = norm_text(o.value)
         if got != want:
-            bad.append('%s -> %s, reference %s' % (fmt_val(v), got, want))
+            bad.append('%s -> %s, reference %s%s' % (fmt_val(v), got, want, ' (the glob is matched against the whole path: `-X /private` does not '
+                                                     'cover /private/secret.html, which is then requested)' if wild else ''))
     ck.expect(not bad and len(leaves) >= 4, 'C02-D2', sd.qual, 'is_subdir table (%d rows)' % len(leaves),
               'is_subdir differs from the reference: %s' % '; '.join(bad[:2]), sd.loc())
 
